@@ -38,7 +38,7 @@ def contraction_case(draw):
                               tols=TOLS, user_t=(False, False, True)))
     spec['reduction'] = draw(st.booleans())
     spec['max_iter'] = draw(st.sampled_from([None, None, None, 1000, 30, 5, 1]))
-    spec['tol_param'] = draw(st.sampled_from([None, None, None, 1e-5, 1e-9]))
+    spec['tol_param'] = draw(st.sampled_from([None, None, None, 1e-5, 1e-9, 0.0]))
     return spec
 
 
